@@ -522,3 +522,34 @@ func TestVfReplayC08(t *testing.T) {
 		t.Fatalf("C08 violated: %v", err)
 	}
 }
+
+// FuzzVfC08Body: native coverage-guided fuzzing of the HTTP request (thorough tier).
+func FuzzVfC08Body(f *testing.F) {
+	w, err := vfC08setup()
+	if err != nil {
+		f.Fatalf("harness: %v", err)
+	}
+	for _, m := range vfC08Methods {
+		f.Add(byte(2), byte(0), "/", `{"jsonrpc":"2.0","id":1,"method":"`+m+`","params":[`+fmt.Sprint(w.slots[0])+`]}`)
+		f.Add(byte(1), byte(0), "/", `{"jsonrpc":"2.0","id":1,"method":"`+m+`","params":["`+w.sigs[0]+`",{"encoding":"base64","limit":3}]}`)
+		f.Add(byte(2), byte(0), "/", `{"jsonrpc":"2.0","id":1,"method":"`+m+`"}`)
+	}
+	f.Add(byte(2), byte(1), "/api/v1/slot-to-cid/"+fmt.Sprint(w.slots[0]), "")
+	f.Add(byte(2), byte(1), "/api/v1/sig-to-cid/"+w.sigs[0], "")
+	f.Add(byte(0), byte(1), "/health", "")
+	run := vfh.Begin("C08", "fuzz")
+	methods := []string{"POST", "GET", "PUT", "DELETE"}
+	f.Fuzz(func(t *testing.T, server byte, method byte, path string, body string) {
+		if len(body) > 4096 || len(path) > 512 {
+			return
+		}
+		r := &vfC08Req{Kind: "http", Server: int(server) % 3, Method: methods[int(method)%len(methods)], Path: path, Body: body}
+		if !strings.HasPrefix(r.Path, "/") {
+			r.Path = "/" + r.Path
+		}
+		if _, err := vfC08exec(w, r); err != nil {
+			run.DumpReplay(r, err.Error())
+			t.Fatalf("C08 violated: %v", err)
+		}
+	})
+}
